@@ -611,10 +611,18 @@ class ContactlessFrontend(object):
                     log.debug("connected to {0}".format(tag))
                     if options['on-connect'](tag):
                         if options['beep-on-connect']:
-                            self.device.turn_on_led_and_buzzer()
+                            with self.lock:
+                                if self.device is None:
+                                    raise IOError(errno.ENODEV,
+                                                  os.strerror(errno.ENODEV))
+                                self.device.turn_on_led_and_buzzer()
                         while not terminate() and tag.is_present:
                             time.sleep(0.1)
-                        self.device.turn_off_led_and_buzzer()
+                        with self.lock:
+                            if self.device is None:
+                                raise IOError(errno.ENODEV,
+                                              os.strerror(errno.ENODEV))
+                            self.device.turn_off_led_and_buzzer()
                         return options['on-release'](tag)
                     else:
                         return tag
